@@ -5,7 +5,6 @@ import (
 
 	"com.tuntun.rangers/node/src/common"
 	"com.tuntun.rangers/node/src/middleware/types"
-	"com.tuntun.rangers/node/src/storage/account"
 	symx "com.tuntun.rangers/node/src/zz_symx"
 )
 
